@@ -43,6 +43,9 @@ func (c foConfig) String() string {
 	if c.SliceVals {
 		s += "/slice-values"
 	}
+	if c.Observe {
+		s += "/observe"
+	}
 	return s
 }
 
